@@ -521,6 +521,69 @@ func binConsts(fn *ssa.Function, op token.Token, pred func(b *ssa.BinOp, other s
 	return out
 }
 
+// c01ShiftAdvance finds the left shifts of fn whose shift amount is a loop-carried
+// variable and returns the constants by which that variable advances per iteration.
+// ok is false when no such shift exists or when the shift variable is updated in a way
+// that is not "itself plus a constant" (then the width is not recognised: undecided).
+func c01ShiftAdvance(fn *ssa.Function) (adv []int64, ok bool) {
+	strip := func(v ssa.Value) ssa.Value {
+		for {
+			switch x := v.(type) {
+			case *ssa.Convert:
+				v = x.X
+			case *ssa.ChangeType:
+				v = x.X
+			default:
+				return v
+			}
+		}
+	}
+	set := map[int64]bool{}
+	ok = true
+	found := false
+	HxEachInstr(fn, func(in ssa.Instruction) {
+		b, isB := in.(*ssa.BinOp)
+		if !isB || b.Op != token.SHL {
+			return
+		}
+		ph, isPhi := strip(b.Y).(*ssa.Phi)
+		if !isPhi {
+			return // e.g. 1<<n: the shift amount is not loop-carried
+		}
+		found = true
+		for _, e := range ph.Edges {
+			e = strip(e)
+			if _, isC := e.(*ssa.Const); isC {
+				continue // initial value
+			}
+			add, isAdd := e.(*ssa.BinOp)
+			if !isAdd || add.Op != token.ADD {
+				ok = false
+				continue
+			}
+			x, y := strip(add.X), strip(add.Y)
+			if y == ssa.Value(ph) {
+				x, y = y, x
+			}
+			k, isC := y.(*ssa.Const)
+			if x != ssa.Value(ph) || !isC || k.Value == nil {
+				ok = false
+				continue
+			}
+			if v, isV := (&HxEval{}).Value(k); isV {
+				set[v] = true
+			} else {
+				ok = false
+			}
+		}
+	})
+	for v := range set {
+		adv = append(adv, v)
+	}
+	sort.Slice(adv, func(i, j int) bool { return adv[i] < adv[j] })
+	return adv, ok && found
+}
+
 func c01VarInt(c *Ctx) {
 	rule := "varint-codec"
 	enc, dec := c.MustFn(hpH+"appendVarInt"), c.MustFn(hpH+"readVarInt")
@@ -535,8 +598,12 @@ func c01VarInt(c *Ctx) {
 		return 0, false
 	}
 	g, okG := one(binConsts(enc, token.SHR, notParam))
-	dAdd := binConsts(dec, token.ADD, func(b *ssa.BinOp, other ssa.Value) bool { _, isPhi := other.(*ssa.Phi); return isPhi })
+	// The decoder's group width is the loop-carried increment of the value used as the
+	// SHIFT amount of the accumulated payload bits (`... << m`, `m += width`), not any
+	// constant addition in the function (a loop counter also advances by a constant).
+	dAdd, okShift := c01ShiftAdvance(dec)
 	dg, okDG := one(dAdd)
+	okDG = okDG && okShift
 	c.Check(okG && okDG && g == dg && g > 0 && g < 8, rule, "group width: appendVarInt shifts by what readVarInt advances by", enc.Pos(),
 		fmt.Sprintf("%d bits", g), fmt.Sprintf("encoder shift constants %v, decoder advance constants %v", binConsts(enc, token.SHR, notParam), dAdd))
 	if !okG {
